@@ -185,6 +185,18 @@ def dataset(cases):
                             f.write_example(values={"a": np.frombuffer(content(c["width"], i + 200 + 50 * k), np.uint8)}, split="train")
                     updates += df.get_updated_infos()
                 ds.write_config(updated_infos=updates)
+            if c.get("late_commit"):
+                # a filler that does not update the dataset itself writes first, another session commits into the same split, and only
+                # then are the first filler's updates committed: what the description records must be the digest of the file as it is NOW
+                from sedpack.io.dataset_filler import DatasetFiller
+                early = DatasetFiller(ds, auto_update_dataset=False)
+                with early as f:
+                    for i in range(c["n"]):
+                        f.write_example(values={"a": np.frombuffer(content(c["width"], i + 300), np.uint8)}, split="train")
+                with ds.filler() as f:
+                    for i in range(c["n"]):
+                        f.write_example(values={"a": np.frombuffer(content(c["width"], i + 400), np.uint8)}, split="train")
+                ds.write_config(updated_infos=early.get_updated_infos())
             if c.get("threaded_fillers"):
                 # one filler per thread, each into its own sub-directory, closing shards at the same time; merged by one write_config
                 import threading as _th
